@@ -2,6 +2,7 @@ package props
 
 import (
 	"fmt"
+	"go/types"
 	"strings"
 
 	"golang.org/x/tools/go/ssa"
@@ -16,7 +17,7 @@ func init() {
 
 func runC03(c *core.Ctx, o Options) {
 	integrityRules(c)
-	c.RuleMin = map[string]int{"V1": 3, "V2": 2, "V3": 1, "V4": 3, "V5": 3, "V6": 4}
+	c.RuleMin = map[string]int{"V1": 3, "V2": 2, "V3": 1, "V4": 3, "V5": 3, "V6": 4, "V7": 2}
 	c.MinObl = 12
 }
 
@@ -24,6 +25,7 @@ const c03Explanation = "V1 (must-pass-through): in DefaultUnmarshaller.Unmarshal
 	"V2 (two checks): inside the raw validation `return nil` is reached only through the pass edge of declared-length == measured-length and of bytes.Equal(declared checksum bytes, recomputed checksum); a missing or non-numeric BodyLength is an error; every fail edge returns a non-nil error. " +
 	"V3 (mode independence): no branch condition of the validation or of Unmarshal depends on the strict parameter / Strict field. V4: the recomputed checksum is a call of the very function the serializer uses (whose shape is checked as in C01.S1). " +
 	"V5 (mirror arithmetic): with the serializer's layout as the shape of the input, the measured length len(d) − (len(BeginString field)+1) − (len(BodyLength field)+1) − (len(CheckSum field)+1) is the length of the BodyLength region, and the slice handed to the checksum function has the length of the checksum prefix, len(d) − len(CheckSum field) − 2; the three fields are looked up with the message's own framing tags. " +
+	"V7: the framing fields are looked up in the very bytes that are measured and summed — the data given to the field scanner is the validation's argument passed along unmodified (parameter, whole-slice, or a scanner field stored only from such a parameter). " +
 	"V6: the declared values are read exactly — field values are the unmodified bytes up to the next delimiter, and BodyLength/CheckSum are parsed by the strict inverses of their formatters (no trimming or padding tolerance). " +
 	"Decides that nothing is accepted unless both checks pass; does NOT decide that every damaged variant fails them (a statement about 256·n neighbours per message: e.g. a NUL byte inserted into the BeginString value changes neither the measured region nor the byte sum, and the CheckSum field is located by its first anchored occurrence)."
 
@@ -90,7 +92,19 @@ func integrityBody(c *core.Ctx) {
 	// ---- V2 / V5 inside validateRaw
 	var kv [3]*ssa.Call // bs, bl, cs
 	tags := []string{"BeginStringTag", "BodyLengthTag", "CheckSumTag"}
-	an.AllInstrs(vr, func(in ssa.Instruction) {
+	// the validation together with the helpers cut out of it (a lookup step and a comparison step, say)
+	vrGroup := []*ssa.Function{vr}
+	for _, g := range an.PkgFuncs(vr.Pkg) {
+		if owner, _ := an.LogicalOwner(g); owner == vr && g != vr && g.Parent() == nil {
+			vrGroup = append(vrGroup, g)
+		}
+	}
+	inGroup := func(f func(ssa.Instruction)) {
+		for _, g := range vrGroup {
+			an.AllInstrs(g, f)
+		}
+	}
+	inGroup(func(in ssa.Instruction) {
 		call, ok := in.(*ssa.Call)
 		if !ok || !an.CalleeIs(&call.Call, "fix", "NewKeyValue") {
 			return
@@ -107,7 +121,7 @@ func integrityBody(c *core.Ctx) {
 	bsB, blB, csB := an.Render(kv[0])+".ToBytes()", an.Render(kv[1])+".ToBytes()", an.Render(kv[2])+".ToBytes()"
 	// the three are parsed from d by one unmarshalItems call whose error is returned
 	var parse *ssa.Call
-	an.AllInstrs(vr, func(in ssa.Instruction) {
+	inGroup(func(in ssa.Instruction) {
 		if call, ok := in.(*ssa.Call); ok && an.StaticCallee(&call.Call) == ui {
 			parse = call
 		}
@@ -205,19 +219,44 @@ func integrityBody(c *core.Ctx) {
 	} else {
 		c.Ob("V2", "validateRaw", "byte-wise comparison of the declared CheckSum value with the recomputed one", vr.Pos()).Fail("no bytes.Equal between the declared and the recomputed checksum: a numeric comparison accepts 77, +77 and 0077 for 077")
 	}
-	// ---- V3 mode independence
+	// ---- V3 mode independence: in the validation, in Unmarshal and in every function of the package the framing lookup goes
+	// through (the scanner's constructor and its field lookup included)
 	dep := ""
-	for _, fn := range []*ssa.Function{vr, um} {
-		ps, _ := an.EnumPaths(fn, 1024)
-		for _, p := range ps {
-			for _, a := range p.Atoms {
-				if dependsOnMode(a.Val, 0) {
-					dep = an.NameOf(fn) + ": " + a.String()
-				}
+	scope := pkgReach([]*ssa.Function{vr, um})
+	for _, fn := range scope {
+		an.AllInstrs(fn, func(in ssa.Instruction) {
+			if iff, ok := in.(*ssa.If); ok && dependsOnMode(iff.Cond, 0) {
+				dep = an.NameOf(fn) + ": " + an.Render(iff.Cond)
 			}
+		})
+	}
+	c.Check(dep == "", "V3", "validateRaw", "no integrity decision depends on strict mode", vr.Pos(), fmt.Sprintf("no branch on strict / Strict in %d functions", len(scope)), "a branch of the integrity check depends on the mode: "+dep)
+	// ---- V7 the bytes the framing fields are looked up in are the bytes that are measured and summed: the data handed to the
+	// field scanner is the validation's own argument, passed along unmodified (a normalised copy — other delimiter, trimmed,
+	// case-folded — lets a damaged message be located as if it were intact while length and sum are taken over the original)
+	if parse != nil {
+		why := unmodifiedInput(parse.Call.Args[1], vr, 0)
+		c.Check(why == "", "V7", "validateRaw", "the framing fields are looked up in the validated bytes themselves", parse.Pos(), "d", why)
+		for _, fn := range pkgReach([]*ssa.Function{ui}) {
+			an.AllInstrs(fn, func(in ssa.Instruction) {
+				call, ok := in.(*ssa.Call)
+				if !ok || fn != ui {
+					return
+				}
+				callee := an.StaticCallee(&call.Call)
+				if callee == nil || callee.Pkg != ui.Pkg || callee.Signature.Recv() == nil {
+					return
+				}
+				for i, a := range call.Call.Args {
+					if i == 0 || !isByteSlice(a.Type()) {
+						continue
+					}
+					why := unmodifiedInput(a, ui, 0)
+					c.Check(why == "", "V7", an.NameOf(ui)+"→"+an.NameOf(callee), "the scanner is run over the bytes unmarshalItems was given", call.Pos(), an.Render(a), why)
+				}
+			})
 		}
 	}
-	c.Check(dep == "", "V3", "validateRaw", "no integrity decision depends on strict mode", vr.Pos(), "no branch on strict / Strict", "a branch of the integrity check depends on the mode: "+dep)
 	// ---- V5 mirror arithmetic on the accepting path
 	for _, p := range paths {
 		if p.Return == nil || p.Results[0] != "nil" {
@@ -267,12 +306,12 @@ func dependsOnMode(v ssa.Value, depth int) bool {
 	case *ssa.Parameter:
 		return x.Name() == "strict"
 	case *ssa.UnOp:
-		if f, _ := an.LoadedField(x); f != nil && an.FieldName(f) == "Strict" {
+		if f, _ := an.LoadedField(x); f != nil && strings.EqualFold(an.FieldName(f), "Strict") {
 			return true
 		}
 		return dependsOnMode(x.X, depth+1)
 	case *ssa.Field:
-		return an.FieldOf(x) != nil && an.FieldName(an.FieldOf(x)) == "Strict"
+		return an.FieldOf(x) != nil && strings.EqualFold(an.FieldName(an.FieldOf(x)), "Strict")
 	case *ssa.BinOp:
 		return dependsOnMode(x.X, depth+1) || dependsOnMode(x.Y, depth+1)
 	case *ssa.Phi:
@@ -283,4 +322,123 @@ func dependsOnMode(v ssa.Value, depth int) bool {
 		}
 	}
 	return false
+}
+
+// pkgReach: the functions of the roots' package reachable from the roots through static calls.
+func pkgReach(roots []*ssa.Function) []*ssa.Function {
+	seen := map[*ssa.Function]bool{}
+	var out []*ssa.Function
+	var walk func(fn *ssa.Function)
+	walk = func(fn *ssa.Function) {
+		if fn == nil || seen[fn] || fn.Blocks == nil || fn.Pkg != roots[0].Pkg {
+			return
+		}
+		seen[fn] = true
+		out = append(out, fn)
+		for _, a := range fn.AnonFuncs {
+			walk(a)
+		}
+		an.AllInstrs(fn, func(in ssa.Instruction) {
+			if cc := an.CallOf(in); cc != nil {
+				walk(an.StaticCallee(cc))
+			}
+		})
+	}
+	for _, r := range roots {
+		walk(r)
+	}
+	return out
+}
+
+func isByteSlice(t types.Type) bool {
+	sl, ok := t.Underlying().(*types.Slice)
+	if !ok {
+		return false
+	}
+	b, ok := sl.Elem().Underlying().(*types.Basic)
+	return ok && b.Kind() == types.Uint8
+}
+
+// unmodifiedInput: v is a parameter of fn, possibly passed through a whole-slice expression or through a struct field that is only
+// ever stored from a parameter of a package function all of whose call sites pass an unmodified input in turn. Returns "" or
+// the reason why not.
+func unmodifiedInput(v ssa.Value, fn *ssa.Function, depth int) string {
+	if depth > 6 {
+		return "the origin of " + an.Render(v) + " could not be followed"
+	}
+	switch x := v.(type) {
+	case *ssa.Parameter:
+		if x.Parent() == fn {
+			return ""
+		}
+		// the parameter of a helper cut out of fn stands for the argument at its only call site
+		if a, ok := an.OwnerSub(x.Parent())[x]; ok && a != v {
+			return unmodifiedInput(a, fn, depth+1)
+		}
+		return an.Render(v) + " is a parameter of " + an.NameOf(x.Parent())
+	case *ssa.Slice:
+		lowZero := x.Low == nil
+		if k, ok := an.ConstInt(x.Low); ok && k == 0 {
+			lowZero = true
+		}
+		if lowZero && x.High == nil && x.Max == nil {
+			return unmodifiedInput(x.X, fn, depth+1)
+		}
+		return an.Render(v) + " is a part of the input"
+	case *ssa.UnOp:
+		f, _ := an.LoadedField(x)
+		if f == nil {
+			break
+		}
+		// every store to this field in the package
+		n := 0
+		for _, g := range an.PkgFuncs(fn.Pkg) {
+			var why string
+			an.AllInstrs(g, func(in ssa.Instruction) {
+				st, ok := in.(*ssa.Store)
+				if !ok || why != "" {
+					return
+				}
+				fa, ok := st.Addr.(*ssa.FieldAddr)
+				if !ok || an.FieldOf(fa) != f {
+					return
+				}
+				n++
+				p, ok := st.Val.(*ssa.Parameter)
+				if !ok {
+					why = an.NameOf(g) + " stores " + an.Render(st.Val) + " in the scanner's " + an.FieldName(f) + ": the bytes scanned are not the bytes given"
+					return
+				}
+				idx := -1
+				for i, q := range g.Params {
+					if q == p {
+						idx = i
+					}
+				}
+				// call sites of g inside fn pass fn's input; call sites elsewhere are that function's business
+				sites := 0
+				an.AllInstrs(fn, func(in2 ssa.Instruction) {
+					call, ok := in2.(*ssa.Call)
+					if !ok || an.StaticCallee(&call.Call) != g || idx < 0 || idx >= len(call.Call.Args) {
+						return
+					}
+					sites++
+					if w := unmodifiedInput(call.Call.Args[idx], fn, depth+1); w != "" && why == "" {
+						why = w
+					}
+				})
+				if sites == 0 && g != fn && why == "" {
+					why = an.NameOf(g) + " fills the scanner's " + an.FieldName(f) + " but is not called from " + an.NameOf(fn)
+				}
+			})
+			if why != "" {
+				return why
+			}
+		}
+		if n == 0 {
+			return "no store to the scanner's " + an.FieldName(f) + " found"
+		}
+		return ""
+	}
+	return an.Render(v) + " is not the input itself"
 }
